@@ -362,11 +362,13 @@ def _resolve(spec, n):
 
 
 def cache_files(D):
+    """Regular files in D, largest first (the database, not a lock or temp file)."""
     try:
         names = sorted(os.listdir(D))
     except OSError:
         return []
-    return [os.path.join(D, x) for x in names if os.path.isfile(os.path.join(D, x))]
+    paths = [os.path.join(D, x) for x in names if os.path.isfile(os.path.join(D, x))]
+    return sorted(paths, key=lambda p: (-os.path.getsize(p), p))
 
 
 def apply_fault(D, f, target_name=None):
